@@ -373,7 +373,14 @@ class RF24Mesh(RF24MeshNoMaster):
                 shift_val += 3
         extra_child = self.frame_buf.header.from_node == NETWORK_DEFAULT_ADDR
 
-        for i in range(MESH_MAX_CHILDREN + extra_child, 0, -1):
+        slots = list(range(MESH_MAX_CHILDREN + extra_child, 0, -1))
+        # an ID that asks again through the same parent keeps its lease (a repeated or
+        # delayed copy of a request must not move a lease the node has already taken)
+        lease = self.dhcp_dict.get(self.frame_buf.header.reserved, 0)
+        if lease & ~(0xFFFF << shift_val) == via_node and lease >> shift_val in slots:
+            slots.remove(lease >> shift_val)
+            slots.insert(0, lease >> shift_val)
+        for i in slots:
             found_addr, new_addr = (False, via_node | (i << shift_val))
             if new_addr == NETWORK_DEFAULT_ADDR:
                 continue
